@@ -20,7 +20,7 @@ contract("proto:rule_call", trusted=True,
     },
     # any exception may come out of a rule; the scope stack and the table registry are as before the call;
     # a rule that reports "no match" by raising NoMatchError has put back what it took
-    raises={"NoMatchError": {"restores": "view == old(view)", "reader_lines_kept": "implies(old(len(reader.source_lines) > 0 and 0 <= reader.linecount and reader.linecount + len(reader.filo_line) == len(reader.source_lines)), len(reader.source_lines) > 0 and 0 <= reader.linecount and reader.linecount + len(reader.filo_line) == len(reader.source_lines))"}, "*!NoMatchError": {}},
+    raises={"NoMatchError": {"restores": "view == old(view)", "reader_lines_kept": "implies(old(len(reader.source_lines) > 0 and 0 <= reader.linecount and reader.linecount + len(reader.filo_line) == len(reader.source_lines)), len(reader.source_lines) > 0 and 0 <= reader.linecount and reader.linecount + len(reader.filo_line) == len(reader.source_lines))"}, "*!NoMatchError!StopIteration": {}},
     note="rule-call protocol G3 (scope_stack and SYMBOL_TABLES._symbol_tables are not in the modifies clause: unchanged on every exit)")
 
 contract("proto:restore_reader", trusted=True,
@@ -52,7 +52,7 @@ contract("proto:stmt_call", trusted=True,
         "non_scoping_class": "implies(result is not None and never_scoping(cls), not typeof_is(result, 'ScopingRegionMixin'))",
         "labelled_do_instances": "implies(result is not None and labelled_do_class(cls), has_attr(result, 'get_start_label'))",
     },
-    raises={"NoMatchError": {"restores": "view == old(view)", "reader_lines_kept": "implies(old(len(reader.source_lines) > 0 and 0 <= reader.linecount and reader.linecount + len(reader.filo_line) == len(reader.source_lines)), len(reader.source_lines) > 0 and 0 <= reader.linecount and reader.linecount + len(reader.filo_line) == len(reader.source_lines))"}, "*!NoMatchError": {}},
+    raises={"NoMatchError": {"restores": "view == old(view)", "reader_lines_kept": "implies(old(len(reader.source_lines) > 0 and 0 <= reader.linecount and reader.linecount + len(reader.filo_line) == len(reader.source_lines)), len(reader.source_lines) > 0 and 0 <= reader.linecount and reader.linecount + len(reader.filo_line) == len(reader.source_lines))"}, "*!NoMatchError!StopIteration": {}},
     note="statement-level rule call (Base.__new__ statement branch, proved as Base.__new__@stmt): never touches scopes or tables")
 
 contract("proto:add_comments", trusted=True,
@@ -64,10 +64,17 @@ contract("proto:add_comments", trusted=True,
         "reader_lines_kept": "implies(old(len(reader.source_lines) > 0 and 0 <= reader.linecount and reader.linecount + len(reader.filo_line) == len(reader.source_lines)), len(reader.source_lines) > 0 and 0 <= reader.linecount and reader.linecount + len(reader.filo_line) == len(reader.source_lines))",
         "lines_read": "implies(len(content) > len(old(content)), len(reader.source_lines) > 0 and 0 <= reader.linecount and reader.linecount + len(reader.filo_line) == len(reader.source_lines))",
     },
-    raises={"*": {}},
+    raises={"*!StopIteration": {}},
     note="add_comments_includes_directives(content, reader): appends the nodes for the leading comment/include/directive items")
 
 contract("proto:get_scope_name", trusted=True, pure=True,
     types=dict(self="ref:Base"), returns="str",
     ensures={"non_empty": "result != ''"}, raises=[],
     note="[A] a scoping statement has a non-empty name (get_name().string of a matched Name)")
+
+contract("proto:reader_next", trusted=True,
+    types=dict(self="FortranReaderBase", ignore_comments="bool?"), returns="ref", defaults=dict(ignore_comments=None),
+    modifies=["view", "*.fifo_item", "*.linecount", "*.filo_line", "*.source_lines", "*.isclosed"],
+    ensures={"delivers_head": "old(view) == [result] + view"},
+    raises={"StopIteration": {"exhausted": "old(view) == [] and view == []"}},
+    note="reader.next() over the ghost view G1")
